@@ -491,6 +491,44 @@ func (sg *skGen) genMergeHistory(maxN int) {
 	sg.queries(root, 16)
 }
 
+// envelope of exact float arithmetic: every weight held by sketch h is a multiple of 2^-g and the total is
+// T; as long as T*2^g < 2^52 every sum of weights the implementation forms is exact. envOf measures the
+// shadow sketch itself (its bins are exact so far, by induction).
+func (sg *skGen) envOf(h int) (float64, int) {
+	e := sg.sh.sks[h]
+	if e == nil || e.poisoned || e.sk() == nil {
+		return 0, 0
+	}
+	g := 0
+	see := func(w float64) {
+		if w == 0 || math.IsInf(w, 0) || math.IsNaN(w) {
+			return
+		}
+		fr, ex := math.Frexp(w) // w = fr * 2^ex, fr in [0.5,1): 53-bit mantissa m = fr*2^53
+		m := uint64(fr * (1 << 53))
+		tz := 0
+		for m&1 == 0 && tz < 53 {
+			m >>= 1
+			tz++
+		}
+		if low := -(ex - 53 + tz); low > g { // exponent of the lowest set bit is ex-53+tz
+			g = low
+		}
+	}
+	total := 0.0
+	guard(func() {
+		see(e.sk().GetZeroCount())
+		e.sk().GetPositiveValueStore().ForEach(func(i int, c float64) bool { see(c); return false })
+		e.sk().GetNegativeValueStore().ForEach(func(i int, c float64) bool { see(c); return false })
+		total = e.sk().GetCount()
+	})
+	return total, g
+}
+
+func fitsEnvelope(total float64, g int) bool {
+	return total >= 0 && total*math.Ldexp(1, g) < 1<<50
+}
+
 // genGeneralHistory: add / merge / copy / clear / reweight / observe interleaved over a few live
 // sketches of any store kind (C10, C12, C14, C15, C16).
 func (sg *skGen) genGeneralHistory(maxN int, exact bool) {
@@ -530,11 +568,23 @@ func (sg *skGen) genGeneralHistory(maxN int, exact bool) {
 			if r.Bool(3) {
 				w = 0
 			}
+			if t, g := sg.envOf(h); !fitsEnvelope(t+w, maxInt(g, 10)) {
+				continue
+			}
 			apply(h, func(h int) { sg.add(h, v, w) })
 		case 1:
 			o := live[r.Intn(len(live))]
 			if o == h {
 				continue
+			}
+			if th, gh := sg.envOf(h); true {
+				to, g := sg.envOf(o)
+				if gh > g {
+					g = gh
+				}
+				if !fitsEnvelope(th+to, g) {
+					continue
+				}
 			}
 			apply(h, func(h int) { sg.line("merge %d %d", h, o) })
 			if r.Bool(40) {
@@ -576,6 +626,9 @@ func (sg *skGen) genGeneralHistory(maxN int, exact bool) {
 			}
 		case 4:
 			f := []float64{0.5, 0.25, 2, 4, 1.5, 0.75, 3, 1, 0.125}[r.Intn(9)]
+			if t, g := sg.envOf(h); !fitsEnvelope(t*f*4, g+3) { // f = n/2^d with d <= 3, n <= 3
+				continue
+			}
 			apply(h, func(h int) { sg.line("rew %d %s", h, hexF(f)) })
 		case 5:
 			sg.obs(h)
@@ -604,7 +657,12 @@ func (sg *skGen) genGeneralHistory(maxN int, exact bool) {
 					sg.line("same %d 20", h)
 					if r.Bool(50) { // decode-and-merge into a live sketch
 						o := live[r.Intn(len(live))]
-						if _, isTwin := twin[o]; !isTwin && o != h {
+						th, gh := sg.envOf(h)
+						to, g := sg.envOf(o)
+						if gh > g {
+							g = gh
+						}
+						if _, isTwin := twin[o]; !isTwin && o != h && fitsEnvelope(th+to, g) {
 							sg.line("decm %d %s", o, showBytes(bs))
 							sg.obs(o)
 						}
@@ -705,4 +763,11 @@ func (sg *skGen) encchk(h int, omit bool) {
 		return
 	}
 	sg.line("encchk %d %d %s", h, b2i(omit), showBytes(bs))
+}
+
+func maxInt(a, b int) int {
+	if a > b {
+		return a
+	}
+	return b
 }
